@@ -124,6 +124,10 @@ def _write_image(fn, a, dt_ms=None):
         fits.writeto(fn, a, overwrite=True)
     elif ext in (".txt", ".data", ".csv"):
         np.savetxt(fn, a, delimiter={".txt": ",", ".data": " ", ".csv": ";"}[ext])
+    elif ext in (".png", ".bmp", ".tiff", ".tif"):
+        from PIL import Image
+
+        Image.fromarray(np.asarray(a).astype(np.uint8), mode="L").save(fn)      # 8-bit grey levels, lossless
     else:
         raise ValueError(ext)
     if dt_ms is not None:
